@@ -145,12 +145,14 @@ let monitors : (string * (config -> n list -> n list option -> bool)) list = [
   ("C06", ok_C06);
   ("C12", ok_C12);
   ("C13udp", ok_C13_udp);
+  ("C18udp", ok_C18_udp);
 ]
 
 (* monitors that also need the reference connection state (first data segment of a TCP flow) *)
 let monitors_st : (string * (config -> ref_state -> n list -> n list option -> bool)) list = [
   ("C07", ok_C07);
   ("C13tcp", ok_C13_tcp);
+  ("C18tcp", ok_C18_tcp);
 ]
 
 let () =
